@@ -51,6 +51,7 @@ type concState struct {
 	cur       map[int]map[uint32]*blockCommit // thread -> block -> entry being committed
 	holding   map[int]map[uint32]bool         // thread -> blocks whose write latch it took for a commit and has not released yet
 	latchStep map[int]map[uint32]int          // thread -> block -> scheduler step at which it was released to take the write latch
+	recorderBy int                           // 1 + id of the thread whose Snapshot call has its recorder installed (0 = none)
 	relay     *chunkCounter                   // C06: logger of the channel replica
 	snapBlock int                             // block the snapshotter thread is reading (-1 = none)
 	snaps     []*snapRec
@@ -230,7 +231,7 @@ func runConc(cs *Case, or concOracles) (w *World) {
 					n = 1
 				}
 				for k := 0; k < n && !w.stopped(); k++ {
-					w.takeSnapshot()
+					w.takeSnapshot(tp.Healthy)
 					w.sim.Yield(ptTxnEdge)
 				}
 				st.writersLeft--
@@ -531,6 +532,9 @@ func (w *World) concHook(c *column.Collection, latch *smutex.SMutex128, p uint8,
 			}
 		}
 	case uint8(column.SimSnapshotPhase):
+		if arg == 3 && st.recorderBy == tid+1 {
+			st.recorderBy = 0 // the recorder was detached just before this hook
+		}
 		st.snapBlock = -1
 		w.stats.probe(fmt.Sprintf("snapshot-phase-%d", arg))
 		if arg == 3 && len(st.snaps) > 0 {
@@ -635,7 +639,7 @@ func (w *World) quiescentChecks() {
 			return
 		}
 	}
-	if st.or.snapshots {
+	if st.or.snapshots || (st.or.snapfault && !w.triggered["snapshot-reserved"]) {
 		for i, s := range st.snaps {
 			if v := w.checkSnapshot(i, s); v != nil {
 				w.fail(v)
